@@ -219,3 +219,59 @@ def st_rot():
                "non-trivial = always")
 def arbitrary_rotation(case, ctx):
     _run(case, ctx, exact=False)
+
+
+# ------------------------------------------------------------------------------------------------
+# fractional-Laplacian features (no SCF path on this tree: evaluated through the repository's descriptor routine)
+@st.composite
+def st_nlof_motion(draw):
+    mol = draw(G.st_mol(min_atoms=2, max_atoms=3, max_elec=18, levels=(0,), bases=("sto-3g", "6-31g", "6-31g*")))
+    natm = len(mol["atoms"])
+    motion = {"kind": "rotation", "angles": [draw(st.floats(0.2, 2.9)) for _ in range(3)], "improper": draw(st.booleans()),
+              "t": [draw(st.floats(-5, 5)) for _ in range(3)], "perm": draw(st.permutations(list(range(natm)))), "oct": 0}
+    return {"mol": mol, "nlof": draw(G.st_nlof()), "dm": draw(G.st_dm(uks=False)), "motion": motion,
+            "npts": draw(st.integers(6, 24)), "seed": draw(st.integers(0, 2**31 - 1))}
+
+
+@subcheck("C06", "nlof_rigid_motion", st_nlof_motion, quick=64, thorough=1000, tolerances=TOL, shrink=False,
+          rule="G-mol x PSD dm x FracLaplSettings (1-3 powers, scalar / vector / 'd' / 'dd' features, dot products incl. the density "
+               "gradient) x a drawn proper or improper rotation + translation + atom relabelling: features from the repository's "
+               "descriptor routine (_fl_desc_getter) for the moved molecule, with the density matrix carried by the exact AO "
+               "representation of the motion (least squares, residual checked), at the co-moved probe points equal the features "
+               "of the original (scalars and dot products are invariant; no quadrature is involved, so 1e-9 of the largest "
+               "|feature| of the row); non-trivial = some |feature| > 1e-6")
+def nlof_rigid_motion(case, ctx):
+    from ciderpress.pyscf.descriptors import _fl_desc_getter
+
+    from props.c03 import probe_grids
+
+    mspec = case["mol"]
+    mol = G.build_mol(mspec)
+    natm = mol.natm
+    m = case["motion"]
+    R = G._rot(m["angles"]) * (-1.0 if m["improper"] else 1.0)
+    t = np.array(m["t"])
+    perm = list(m["perm"])
+    c = mol.atom_coords()
+    atoms2 = [[mspec["atoms"][p][0], list(c[p] @ R.T + t)] for p in perm]
+    mol2 = G.build_mol(mspec, atoms=atoms2)
+    M, resid = ao_representation(mol, mol2, R, t, case["seed"])
+    ctx.check(resid < 1e-8, ("oracle_self_test", "ao_representation"), resid=resid)
+    settings = G.build_nlof(case["nlof"])
+    dm = G.build_dm(mol, case["dm"])[0][0]["dm"]
+    dm2 = M @ dm @ M.T
+    rng = rng_from(case["seed"] + 1)
+    pts = c[rng.integers(0, natm, case["npts"])] + rng.normal(size=(case["npts"], 3)) * 0.9
+    f1 = np.array(_fl_desc_getter(mol, probe_grids(mol, pts), dm, settings), copy=True)
+    f2 = np.array(_fl_desc_getter(mol2, probe_grids(mol2, pts @ R.T + t), dm2, settings), copy=True)
+    nl = case["nlof"]
+    for key in ("nk0", "nk1", "nd1", "ndd"):
+        ctx.event("nlof:%s=%s" % (key, "0" if nl[key] == 0 else (">1" if nl[key] > 1 else "1")))
+    ctx.event("improper" if m["improper"] else "proper")
+    if np.max(np.abs(f1)) > 1e-6:
+        ctx.nontrivial([case["nlof"], G.mol_class(mspec), m["improper"]])
+    kinds = ["k0"] * nl["nk0"] + ["l1dot"] * len(nl["l1_dots"]) + ["lddot"] * len(nl["ld_dots"]) + ["dd"] * nl["ndd"]
+    ctx.check(f1.shape == f2.shape == (settings.nfeat, case["npts"]), ("nlof_motion", "shape"), got=[list(f1.shape), list(f2.shape)])
+    for k in range(settings.nfeat):
+        sc = float(np.max(np.abs(f1[k]))) + 1e-300
+        ctx.close(f2[k], f1[k], ("nlof_motion", kinds[k]), rtol=0, atol=1e-9 * sc + 1e-13, feature=k)
